@@ -79,8 +79,8 @@ int Wave_File::read(const std::string& filename)
 	{
 		uint32_t chunksize, ret;
 
-		chunksize = *(uint32_t*)(filebuf+pos+4) + 8;
-		if(pos+chunksize > filesize)
+		chunksize = *(uint32_t*)(filebuf+pos+4);
+		if(chunksize > filesize - pos - 8)
 		{
 			printf("Illegal chunk size (%d, %d)\n", pos+chunksize+8, filesize);
 			return -1;
@@ -91,7 +91,7 @@ int Wave_File::read(const std::string& filename)
 			printf("Failed to parse chunk %c%c%c%c.\n",filebuf[pos],filebuf[pos+1],filebuf[pos+2],filebuf[pos+3]);
 			return -1;
 		}
-		pos += chunksize;
+		pos += chunksize + 8;
 
 		if(pos & 1)
 			pos++;
